@@ -520,12 +520,12 @@ func c03Run1(c *fw.Ctx) {
 	}
 	// interleavings of the pairing handlers of several connections, explored under the cooperative scheduler in a
 	// subprocess (the last worker shards run one part each, next to their share of the trees)
-	if part := c.NShards - 1 - c.Shard; part < pschedParts || c.NShards == 1 {
+	if part := c.NShards - 1 - c.Shard; part < 2*pschedParts || c.NShards == 1 {
 		done := make(chan bool)
 		go func() {
 			defer close(done)
 			if c.NShards == 1 {
-				for p := 0; p < pschedParts; p++ {
+				for p := 0; p < 2*pschedParts; p++ {
 					pschedRun(c, "C03", p)
 				}
 				return
@@ -600,7 +600,7 @@ func init() {
 	fw.Register(&fw.Check{
 		ID:    "C03",
 		Level: "model_checking",
-		Rule:  "every history of length ≤3 (quick) / ≤4 (thorough) over 24 symbols, in thorough also every history of length ≤3 over all 32 symbols, of the pair-verify alphabet on an adversary connection X and a legitimate connection L (start valid / 31 / 33 / 0-byte key / all-zero point; finish genuine, signed by X naming L, unknown name, naming the accessory, sealed under zero / wrong key, 0 and 15 byte payloads, tag flipped, L's captured finish replayed, L's signature over reordered or stale material, naming a stored entity that has no key / a 5-byte key, signed by L's own key but naming the case-swapped spelling / a prefix of its name, the accessory's own identifier and signature reflected, a start with the accessory's own ephemeral key followed by a finish that echoes the sealed part of the start response; unknown state; unknown method; reopen; L's start replayed by X; L's genuine finish split with Expect: 100-continue so that its handler overlaps with later events) against the real transport over TCP; each node is replayed on a fresh system; after every event the response is compared with the reference model (verified ⇔ genuine finish by L directly after an accepted start, computed by the independent controller), and at the end of every history each connection is probed destructively: an unverified one must answer plaintext, refuse protected reads and not serve ciphertext under its own exchange keys; a verified one must serve encrypted requests. The same alphabet (all 32 symbols) is also explored to depth 2 (thorough 3) from two non-initial states: L already verified on its connection, and L verified once and then removed by an administrator through /pairings (its genuine finish must then be refused). Plus interleavings of the real pair-verify / pair-setup handlers of two connections under a cooperative scheduler (scheduling points = every log statement of the library, every mutex Lock in hap and crypto, the arrival of each request; preemption bound 2 quick / 3 thorough): a genuine and a forged pair-verify naming the same controller, a pair-verify next to another connection's key exchange — exactly the genuine one ends verified. states = tree nodes, distinct_nontrivial = distinct (event → response class) pairs",
+		Rule:  "every history of length ≤3 (quick) / ≤4 (thorough) over 24 symbols, in thorough also every history of length ≤3 over all 32 symbols, of the pair-verify alphabet on an adversary connection X and a legitimate connection L (start valid / 31 / 33 / 0-byte key / all-zero point; finish genuine, signed by X naming L, unknown name, naming the accessory, sealed under zero / wrong key, 0 and 15 byte payloads, tag flipped, L's captured finish replayed, L's signature over reordered or stale material, naming a stored entity that has no key / a 5-byte key, signed by L's own key but naming the case-swapped spelling / a prefix of its name, the accessory's own identifier and signature reflected, a start with the accessory's own ephemeral key followed by a finish that echoes the sealed part of the start response; unknown state; unknown method; reopen; L's start replayed by X; L's genuine finish split with Expect: 100-continue so that its handler overlaps with later events) against the real transport over TCP; each node is replayed on a fresh system; after every event the response is compared with the reference model (verified ⇔ genuine finish by L directly after an accepted start, computed by the independent controller), and at the end of every history each connection is probed destructively: an unverified one must answer plaintext, refuse protected reads and not serve ciphertext under its own exchange keys; a verified one must serve encrypted requests. The same alphabet (all 32 symbols) is also explored to depth 2 (thorough 3) from two non-initial states: L already verified on its connection, and L verified once and then removed by an administrator through /pairings (its genuine finish must then be refused). Plus interleavings of the real pair-verify / pair-setup handlers of two connections under a cooperative scheduler (scheduling points = every log statement of the library, every mutex Lock in hap and crypto, the arrival of each request; preemption bound 2 quick / 3 thorough; and once more with a scheduling point before every statement of hc's packages and one preemption): a genuine and a forged pair-verify naming the same controller, a pair-verify next to another connection's key exchange — exactly the genuine one ends verified. states = tree nodes, distinct_nontrivial = distinct (event → response class) pairs",
 		Run:   c03Run1,
 		Replay: func(c *fw.Ctx, raw json.RawMessage) {
 			var pc pschedCase
